@@ -942,6 +942,10 @@ fn blocks(known: Known) -> impl Strategy<Value = Vec<Block>> {
         // region, natural overflow aside); the rest keeps breaks inside sections and before sub-headings.
         let clean = known.page_reset && mode >= 15;
         let mut out = Vec::new();
+        // blank pages: a leading one in ~6 % of the documents, one between two sections where the break roll is 0
+        if mode % 16 == 3 {
+            out.push(Block::PageBreak);
+        }
         if let Some(p) = pre {
             out.push(p);
         }
@@ -949,6 +953,9 @@ fn blocks(known: Known) -> impl Strategy<Value = Vec<Block>> {
             let brk = si > 0 && brk_before < 6;
             if brk {
                 out.push(Block::PageBreak);
+                if brk_before == 0 {
+                    out.push(Block::PageBreak);
+                }
             }
             // most documents open with a level-1 heading
             let level = if (si == 0 && first_level_bias > 1) || (clean && brk) { 1 } else { level };
